@@ -119,6 +119,14 @@ func PatchesFromDocument(doc string) ([]Patch, error) {
 		case document.AlsoKnownAs:
 			docPatch, err = NewAddAlsoKnownAs(string(jsonBytes))
 		default:
+			// the member name becomes part of a JSON string: quotes, backslashes and control characters must be escaped
+			escapedKey, e := json.Marshal(key)
+			if e != nil {
+				return nil, e
+			}
+
+			key = string(escapedKey[1 : len(escapedKey)-1])
+
 			jsonPatches = append(jsonPatches, fmt.Sprintf(jsonPatchAddTemplate, key, string(jsonBytes)))
 		}
 
